@@ -323,6 +323,9 @@ func genC20(t *rapid.T) c20Case {
 	if len(body) > 48*1024 {
 		body = body[:48*1024]
 	}
+	if chance(t, "json-like-start", 10) {
+		body = append([]byte(pick(t, "json-start", []string{"{", "[", " \n{", "\t[", "{\"a\":1}", "[]"})), body...)
+	}
 	if chance(t, "body-is-a-gzip-stream", 15) {
 		// the document itself is a complete gzip stream (a download, or a server compressing twice)
 		var buf bytes.Buffer
